@@ -67,7 +67,7 @@ Proof.
   pose proof (kind_lt_of_wf t Hr Hw) as Hk.
   unfold show_any, dyn_type. rewrite Hi. rewrite (dispatch_js conv f (Some t) Hk).
   unfold show_top. destruct t; try discriminate Hr; rewrite Hi;
-    apply (show_val_good L f (S (vsize v))); try assumption; try lia; try apply env_ok_nil;
+    apply (show_val_good' L f (S (vsize v))); try assumption; try lia; try apply env_ok_nil;
     apply static_js; assumption.
 Qed.
 
@@ -98,9 +98,9 @@ Proof.
     { unfold flat_ctx in Hf. apply andb_false_iff in Hf. destruct Hf as [Hf | Hf]; apply negb_false_iff in Hf; apply N.eqb_eq in Hf; auto. }
     rewrite (Hurl Hc). destruct Hc as [Hc | Hc]; subst ctx.
     + pose proof (dispatch_js conv FJS None ltac:(vm_compute; reflexivity)) as Hdsp. cbn [ctx_of] in Hdsp. rewrite Hdsp.
-      unfold show_top. destruct t; try discriminate Hr; rewrite Hi; apply show_nil_good.
+      unfold show_top. destruct t; try discriminate Hr; rewrite Hi; rewrite show_nil_eq; apply good_ok.
     + pose proof (dispatch_js conv FJSON None ltac:(vm_compute; reflexivity)) as Hdsp. cbn [ctx_of] in Hdsp. rewrite Hdsp.
-      unfold show_top. destruct t; try discriminate Hr; rewrite Hi; apply show_nil_good.
+      unfold show_top. destruct t; try discriminate Hr; rewrite Hi; rewrite show_nil_eq; apply good_ok.
 Qed.
 
 (* contexts other than JS and JSON, stated over show_any *)
